@@ -125,6 +125,26 @@ func RunPipeline(seed int64, tier, driver, outDir string, search bool) *core.Res
 		}
 	}
 	res.Extra["waiter_scenarios"] = nw
+	// (d) the getters' copies are the caller's to modify
+	nc := 30
+	if tier == "thorough" {
+		nc = 400
+	}
+	for i := 0; i < nc; i++ {
+		fs, line := CopyScenario(seed*100019 + int64(i))
+		res.Evaluations++
+		for _, f := range fs {
+			key := "copies|" + strings.SplitN(f, " changed the machine", 2)[0]
+			if failSeen[key] {
+				continue
+			}
+			failSeen[key] = true
+			file := filepath.Join(outDir, fmt.Sprintf("C20-seed%d-copies%d.ccase", seed, len(res.Failures)))
+			os.WriteFile(file, []byte(fmt.Sprintf("# getter copies: %s\n%s\n", f, line)), 0o644)
+			res.Failures = append(res.Failures, core.FailRec{Prop: "C20", Msg: f + " [" + line + "]", File: file})
+		}
+	}
+	res.Extra["copy_scenarios"] = nc
 	sort.Strings(skipped)
 	res.Extra["skipped_targets"] = uniqStrings(skipped)
 	res.Evaluations += stats["ok"]
